@@ -86,6 +86,7 @@ type c05Bound struct {
 	Logins    int  `json:"logins"`
 	Callbacks int  `json:"callbacks_per_login"`
 	Prune     bool `json:"prune"`
+	Near      int  `json:"near_miss_level,omitempty"` // provider answers derived from the right nonce (c05NearModes)
 }
 
 type c05Op struct {
@@ -124,6 +125,8 @@ func c05ModeClass(m string) string {
 		return "other-login"
 	case strings.HasPrefix(m, "swap:"):
 		return "swapped-code"
+	case strings.HasPrefix(m, "near:"):
+		return "near-miss"
 	}
 	return m
 }
@@ -174,8 +177,60 @@ func c05Enabled(h []c05Op, bd c05Bound) []c05Op {
 		for _, m := range []string{"empty", "absent", "raw"} {
 			out = append(out, c05Op{K: "callback", L: i, M: m})
 		}
+		// near misses of the right value: "hash-match" is equality, not a prefix, suffix or
+		// case-insensitive relation
+		for _, m := range c05NearModes(bd.Near) {
+			out = append(out, c05Op{K: "callback", L: i, M: m})
+		}
 	}
 	return out
+}
+
+// c05NearModes: provider answers whose nonce is derived from the right one. level 1 = the two that
+// any prefix-, length- or containment-style comparison lets through; level 2 = all.
+func c05NearModes(level int) []string {
+	switch {
+	case level <= 0:
+		return nil
+	case level == 1:
+		return []string{"near:cut", "near:cat"}
+	}
+	return []string{"near:cut", "near:cat", "near:first", "near:half", "near:ext", "near:case", "near:pad"}
+}
+
+// c05Near derives the near miss m from the right nonce value.
+func c05Near(m, right string) string {
+	if right == "" {
+		return "x"
+	}
+	switch m {
+	case "near:cut":
+		return right[:len(right)-1]
+	case "near:cat":
+		return right + c05ForeignNonce
+	case "near:first":
+		return right[:1]
+	case "near:half":
+		return right[:len(right)/2]
+	case "near:ext":
+		return right + "A"
+	case "near:case":
+		b := []byte(right)
+		for i, ch := range b {
+			if ch >= 'a' && ch <= 'z' {
+				b[i] = ch - 32
+				return string(b)
+			}
+			if ch >= 'A' && ch <= 'Z' {
+				b[i] = ch + 32
+				return string(b)
+			}
+		}
+		return right + "a"
+	case "near:pad":
+		return right + "="
+	}
+	return right + "?"
 }
 
 // ---------------------------------------------------------------------------------------------
@@ -412,6 +467,12 @@ func (x *c05Exec) tokenSpec(a *world.AuthRequest, _ *world.User, refresh bool) *
 		x.err("other-login nonce requested for unknown login %d", j)
 	case m == "empty":
 		return set("")
+	case strings.HasPrefix(m, "near:"):
+		right := a.Nonce
+		if right == "" && l != nil {
+			right = l.HashedNonce
+		}
+		return set(c05Near(m, right))
 	case m == "absent":
 		return &world.TokenSpec{DropNonce: true}
 	case m == "raw":
@@ -1185,6 +1246,17 @@ func c05Jobs(quick bool) []c05Job {
 			add(c05Cfg{Method: "S256", SkipNonce: false, PerRequest: per, Entry: "start", Advertise: adv}, 2, 1, false)
 		}
 	}
+	// near misses of the right nonce (cut by one character, continued with another nonce, ...): two
+	// logins, every configuration that checks the nonce
+	nearLevel := 2
+	if quick {
+		nearLevel = 1
+	}
+	for _, k := range base {
+		if !k.SkipNonce {
+			jobs = append(jobs, c05Job{Cfg: k, Bd: c05Bound{Logins: 2, Callbacks: 1, Prune: true, Near: nearLevel}})
+		}
+	}
 	if quick {
 		for _, k := range base {
 			add(k, 3, 1, false)
@@ -1230,7 +1302,7 @@ func c05Main(c *Ctx) {
 	jobs := c05Jobs(c.Quick())
 	c.Info["alphabet"] = map[string]any{
 		"operations":            []string{"start(i)", "authorize(i)", "callback(i, provider nonce behaviour)"},
-		"provider_nonce":        []string{"echo", "other login's (outstanding or completed = replayed; a foreign one when alone)", "empty", "absent", "raw (unhashed, base64url)", "truthful answer for another login's code swapped into this callback"},
+		"provider_nonce":        []string{"echo", "other login's (outstanding or completed = replayed; a foreign one when alone)", "empty", "absent", "raw (unhashed, base64url)", "truthful answer for another login's code swapped into this callback", "near misses of the right value: last character cut, continued with a foreign nonce (quick); first character, first half, one character appended, case of one letter changed, '=' appended (thorough)"},
 		"code_challenge_method": []string{"none", "S256", "plain"},
 		"skip_nonce":            2, "csrf_per_request": 2,
 		"searches": len(jobs),
